@@ -2,6 +2,7 @@
 #include "common.h"
 #include "cfggen.h"
 #include "cfgmut.h"
+#include "apiops.h"
 #include <sstream>
 
 namespace {
@@ -59,6 +60,21 @@ struct C13 : Prop {
 			J se = cfg::normal_session(i + 1, r.chance(600) ? 0 : (int) r.range(1, 40));
 			J st = se["start"]; J st2 = J::obj(); for (auto &kv : st.o) if (kv.first != "expect") st2.set(kv.first, kv.second); se.set("start", st2);
 			se.set("kind", "mutated");
+			// the bus does not know that the host is restarting: boards log in and report while the start (and, for a rejected configuration,
+			// the shutdown that follows it) is going on
+			if (r.chance(500)) {
+				std::vector<const cfg::Board *> bs; for (auto &b : w.boards) if (b.present && !b.addr.empty()) bs.push_back(&b);
+				if (!bs.empty()) {
+					const cfg::Board *b = bs[r.below(bs.size())];
+					J sev = J::arr(); int t = (int) r.range(0, 300000);
+					std::vector<uint8_t> pa(b->addr.begin(), b->addr.end() - 1);
+					J nn = J::obj(); nn.set("at_us", t); nn.set("node", pc::jaddr(pa)); nn.set("type", (int) MSG_NODE_NEW);
+					J d = J::arr(); d.push((int) r.range(2, 200)); d.push((int) b->addr.back()); for (int q = 0; q < 7; q++) d.push((int) b->uid[q]); nn.set("data", d); sev.push(nn);
+					cfg::World one; one.boards.push_back(*b); one.trains = w.trains;
+					for (int q = 0, n = (int) r.range(2, 12); q < n; q++) { t += (int) r.range(1000, 150000); sev.push(api::uplink_event(r, one, t)); }
+					se.set("start_bus", sev);
+				}
+			}
 			ss.push(se);
 		}
 		{
